@@ -11,7 +11,8 @@ ID = "C02"
 RULE = ("Cases: FFT grid rfftfreq(n, dt) with n in [16, 4096], 1-5 spectrum rows from drawn recipes, a centre-"
         "frequency vector mixing on-grid, off-grid, 0 Hz, sub-first-bin, Nyquist and beyond-Nyquist values, one of the "
         "seven operators with a bandwidth within a decade of its default. Non-trivial = the spectrum is not constant and "
-        "at least one centre has a window holding >= 2 spectral samples; distinct by SHA-1 of the case description.")
+        "at least one centre has a window holding >= 2 spectral samples; distinct by SHA-1 of the case description."
+        ' One case in five uses an exactly representable grid (n and 1/dt powers of two) with a linear-frequency kernel whose edges fall on bins, for the translation-invariance relation.')
 ASSUMPTIONS = [
     "frequency grids are FFT grids (bin 0 is 0 Hz) as produced by hvsrpy.process",
     "a grid sample within 1e-9 (relative) of a kernel truncation limit may be counted in or out; such centres are not asserted",
